@@ -153,7 +153,11 @@ def work(item):
     try:
         with warnings.catch_warnings():
             warnings.simplefilter('ignore')
-            y = FlowCal.transform.to_rfi(x, **kw)
+            if st.get('_i', 0) % 2:
+                # the documented positional order: data, channels, amplification_type, amplifier_gain, resolution
+                y = FlowCal.transform.to_rfi(x, kw['channels'], kw['amplification_type'], kw['amplifier_gain'], kw['resolution'])
+            else:
+                y = FlowCal.transform.to_rfi(x, **kw)
         obs = 'ok'
     except Exception as e:  # noqa
         y = None
@@ -218,6 +222,7 @@ def main(chk, replay=None):
             continue
         if chk.quick and st['out']['k'] == 'refused' and (i + chk.seed) % 4 != 0:
             continue        # quick tier: every accepted call, a quarter of the refused ones
+        st['_i'] = len(items)          # every other scenario is called positionally
         items.append(st)
     import multiprocessing as mp
     with mp.get_context('fork').Pool(min(16, os.cpu_count() or 1)) as pool:
